@@ -56,6 +56,21 @@ def expand_row(row):
                 st[p] = prev[p]
             else:
                 prev[p] = st[p]
+    # C01view: the height-log dumps (step key "hl", row key "init_hl") use the same
+    # compression; st["hl_same"][p] remembers that p's logs did not change in the step
+    if row.get("init_hl"):
+        prev_hl = dict(row["init_hl"])
+        for st in row["steps"]:
+            hl = st.get("hl")
+            if not isinstance(hl, dict):
+                continue
+            st["hl_same"] = {}
+            for p in PARTIES:
+                st["hl_same"][p] = hl.get(p) == "="
+                if hl.get(p) == "=":
+                    hl[p] = prev_hl[p]
+                else:
+                    prev_hl[p] = hl[p]
     return row
 
 
@@ -709,6 +724,15 @@ reload_consistent.reloads = 0
 # C02: persisted side tables, write-level crashes
 
 
+class _Kind(str):
+    """kind of an own-log entry; resolutions additionally carry .htlc, .src (AddRef
+    (height, index) of the answered Add), .dest (SettleFailRef (height, index)), .has_refs."""
+    htlc = None
+    src = None
+    dest = None
+    has_refs = False
+
+
 def _log_kinds(row):
     """Per step i and party p: {log index: kind} of p's OWN update log as of AFTER step i
     (kind = add | settle | fail | malformed | fee), reconstructed from the successful
@@ -720,7 +744,15 @@ def _log_kinds(row):
         before = {p: dict(kinds[p]) for p in PARTIES}
         op = st["op"]
         if op[0] in ("add", "fee") + RESOLVE and st["res"] == "ok":
-            kinds[op[1]][prev[op[1]]["own_idx"]] = op[0]
+            k = _Kind(op[0])
+            if op[0] in RESOLVE:
+                # forwarding-package references the resolver handed in (None: not recorded)
+                ex = st.get("extra") or {}
+                k.htlc = op[2]
+                k.has_refs = "src_ref" in ex
+                k.src = tuple(ex["src_ref"]) if ex.get("src_ref") else None
+                k.dest = tuple(ex["dest_ref"]) if ex.get("dest_ref") else None
+            kinds[op[1]][prev[op[1]]["own_idx"]] = k
         for p in PARTIES:
             if isinstance(st.get(p), dict) and "ltail" in st[p]:
                 prev[p] = st[p]
@@ -761,6 +793,7 @@ def _tables_ok(d, who, own_kinds):
     if not isinstance(ua, list) or sorted(ua) != want:
         fails.append("%s: persisted unsignedAckedUpdates %s, expected the peer updates %s "
                      "(acked by local height %d, not in the remote tail)" % (who, ua, want, d["ltail"]["h"]))
+    fails += _fwd_bits_ok(d, x, who, own_kinds)
     ru = x["remote_unsigned"]
     lo, hi = d["ltail"]["ours"], d["rtail"]["ours"]
     if not isinstance(ru, list) or any(not (lo <= i < hi) for i in ru):
@@ -771,6 +804,55 @@ def _tables_ok(d, who, own_kinds):
         if not unknown and sorted(ru) != want:
             fails.append("%s: persisted remoteUnsignedLocalUpdates %s, expected %s (own non-add "
                          "updates in [%d, %d))" % (who, ru, want, lo, hi))
+    return fails
+
+
+def _fwd_bits_ok(d, x, who, own_kinds):
+    """Forwarding-package ack bits against the persisted signatures of the same reload dump.
+    The AckFilter bit of an Add (and the SettleFailFilter bit of the response's origin in the
+    other channel's package) says "a response to this Add is committed towards the peer; never
+    look at it again after a restart".  It must be set IF AND ONLY IF the settle / fail that
+    answers the Add is covered by a persisted signature of ours, i.e. its log index is below
+    the `ours` of the persisted pending (CommitDiff) or else current remote commitment."""
+    if own_kinds is None or "destpkgs" not in x or len(x["fwdpkgs"]) == 0 and not x["destpkgs"]:
+        return []
+    if any(len(f) < 6 for f in x["fwdpkgs"]):
+        return []
+    signed = last_remote(d)["ours"]
+    fails = []
+    exp_ack, exp_sf, unknown = {}, {}, False
+    for idx, k in own_kinds.items():
+        if k in RESOLVE:
+            if not getattr(k, "has_refs", False):
+                unknown = True
+            if idx < signed:
+                if k.src:
+                    exp_ack[k.src] = (idx, k)
+                if k.dest:
+                    exp_sf[k.dest] = (idx, k)
+    if unknown:
+        return []
+    act_ack = {(f[0], b) for f in x["fwdpkgs"] for b in f[4]}
+    act_sf = {(f[0], b) for f in x["destpkgs"] for b in f[5]}
+    for (h, b) in sorted(act_ack - set(exp_ack)):
+        pend = [(idx, str(k), k.htlc) for idx, k in own_kinds.items() if k in RESOLVE and k.src == (h, b)]
+        fails.append("%s: forwarding package %d marks Add #%d as responded to (AckFilter), but no persisted "
+                     "signature covers a response to it (persisted remote commitments cover own updates "
+                     "< %d; response in the live log: %s) - a restarted link never resolves that HTLC"
+                     % (who, h, b, signed, pend or "none"))
+    for (h, b) in sorted(set(exp_ack) - act_ack):
+        idx, k = exp_ack[(h, b)]
+        fails.append("%s: the %s of HTLC %s (own update %d) is covered by the persisted remote commitment "
+                     "(own updates < %d) but the AckFilter bit of Add #%d in forwarding package %d is not set"
+                     % (who, k, k.htlc, idx, signed, b, h))
+    for (h, b) in sorted(act_sf - set(exp_sf)):
+        fails.append("%s: the other channel's package %d has SettleFailFilter bit %d set, but no persisted "
+                     "signature covers the response it stands for (own updates < %d)" % (who, h, b, signed))
+    for (h, b) in sorted(set(exp_sf) - act_sf):
+        idx, k = exp_sf[(h, b)]
+        fails.append("%s: the %s of HTLC %s (own update %d) is covered by the persisted remote commitment "
+                     "but SettleFailFilter bit %d of the other channel's package %d is not set"
+                     % (who, k, k.htlc, idx, b, h))
     return fails
 
 
@@ -841,9 +923,17 @@ def _complete_call(call, rb, ra, live, who):
                 fails.append("%s: own_idx %d != signed own updates %d" % (who, ra["own_idx"], ra["rtip"]["ours"]))
             if ra["disk"] != dict(rb["disk"], pending_remote_h=ra["rtip"]["h"]):
                 fails.append("%s: disk heights %s -> %s" % (who, rb["disk"], ra["disk"]))
-        if xa != dict(xb, lwr=False):
+        pk = ("fwdpkgs", "destpkgs")
+        if _minus(xa, pk) != dict(_minus(xb, pk), lwr=False):
             fails.append("%s: side tables after a sign %s, expected those before with LastWasRevoke=false %s"
-                         % (who, xa, xb))
+                         % (who, _minus(xa, pk), _minus(xb, pk)))
+        for k in pk:
+            # a sign may only ADD ack bits (which ones: disk_tables / _fwd_bits_ok)
+            a, b = xa.get(k) or [], xb.get(k) or []
+            if [f[:4] for f in a] != [f[:4] for f in b] or any(
+                    not (set(fb[4]) <= set(fa[4]) and set(fb[5]) <= set(fa[5]))
+                    for fa, fb in zip(a, b) if len(fa) >= 6 and len(fb) >= 6):
+                fails.append("%s: %s changed by a sign other than by new ack bits: %s -> %s" % (who, k, b, a))
     elif call == "revoke":
         same(("ltail", "peer_idx", "peer_htlc", "disk", "diskx", "peer_fee_sorted"), "a revoke")
         if ra["ltail"] != live.get("ltip"):
@@ -889,6 +979,7 @@ def crashin_atomic(row):
     judged by no_errors / agreement / release_rule / the model correspondence.)"""
     fails = []
     stats = crashin_atomic.stats = {}
+    torn = crashin_atomic.torn = []
     prev = {p: row["init"][p] for p in PARTIES}
     for i, st in enumerate(row["steps"]):
         op, ex = st["op"], st.get("extra") or {}
@@ -910,6 +1001,7 @@ def crashin_atomic(row):
             verdict = "before" if untouched else ("after" if not complete else "torn")
             stats["-> " + verdict] = stats.get("-> " + verdict, 0) + 1
             if verdict == "torn":
+                torn.append((i, op, m, refused, "; ".join(complete[:3])))
                 fails.append("step %d %s (committed %s of the call's transactions, %s refused): the reloaded "
                              "state is neither the state before the call nor the state after it: %s"
                              % (i, op, m, refused, "; ".join(complete[:4])))
@@ -927,6 +1019,55 @@ def crashin_atomic(row):
 
 
 crashin_atomic.stats = {}
+crashin_atomic.torn = []
+
+
+def _call_kind(st):
+    op, ex = st["op"], st.get("extra") or {}
+    if op[0] == "crashin":
+        return op[2] if op[2] != "deliver" else "deliver_" + str(ex.get("kind"))
+    return op[0] if op[0] != "deliver" else "deliver_" + str(ex.get("kind"))
+
+
+def tx_counts(row):
+    """{call kind: most read-write transactions ONE call of that kind was seen to commit or
+    attempt in this case} (sign / revoke / deliver_<kind> from extra.ntx, crashed calls from
+    committed + refused, restarts as 'sync')."""
+    out = {}
+    for st in row["steps"]:
+        ex = st.get("extra") or {}
+        n = None
+        if "ntx" in ex:
+            n = ex["ntx"]
+        elif st["op"][0] == "crashin" and "committed" in ex:
+            n = (ex.get("committed") or 0) + (ex.get("refused") or 0)
+        if n is not None:
+            k = _call_kind(st)
+            out[k] = max(out.get(k, 0), n)
+        for n in (ex.get("ntx_sync") or {}).values():
+            out["sync"] = max(out.get("sync", 0), n)
+    return out
+
+
+def call_atomicity(row):
+    """Every state-machine call is ONE durable write.  Not judged on the count alone: it
+    fails when a call was measured to commit (or attempt) more than one read-write
+    transaction AND a crash between them was observed to leave a torn state (neither the
+    state before the call nor the state after it, see crashin_atomic)."""
+    fails = []
+    crashin_atomic(row)
+    torn = list(crashin_atomic.torn)
+    if not torn:
+        return fails
+    counts = tx_counts(row)
+    for i, op, m, refused, detail in torn:
+        kind = _call_kind(row["steps"][i])
+        n = max(counts.get(kind, 0), (m or 0) + (refused or 0))
+        if n > 1:
+            fails.append("step %d %s: one %s call performs %d separate read-write transactions; the node "
+                         "stopping after the %s. of them leaves a state that is neither 'before' nor "
+                         "'after' the call: %s" % (i, op, kind, n, m, detail))
+    return fails
 
 
 def logs_ordered(row):
@@ -1001,7 +1142,104 @@ def expected_failure(row):
     return bool(row.get("script")) and row.get("expect_last") not in (None, "ok")
 
 
+# ---------------------------------------------------------------------------
+# C01view: the incremental bookkeeping, model-free
+
+
+def _hl_dumps(row):
+    """Yield (where, party, kind, {"own": rows, "peer": rows}, party dump) for every
+    height-log dump of a case; kind = "live" (init, every step), "observed" (second
+    object of a crash observation) or "restart" (objects rebuilt by a cut / crashin;
+    yielded BEFORE the live dumps of that step)."""
+    ih = row.get("init_hl") or {}
+    for p in PARTIES:
+        if ih.get(p):
+            yield "init", p, "live", ih[p], row["init"][p]
+    for i, st in enumerate(row["steps"]):
+        ex = st.get("extra") or {}
+        rh, rel = ex.get("hl_reloaded"), ex.get("reloaded")
+        if st["op"][0] == "crash" and rh and rel:
+            yield "step %d reloaded" % i, st["op"][1], "observed", rh, rel
+        if st["op"][0] in RESTARTS and rh and rel:
+            for p in PARTIES:
+                if rh.get(p) and rel.get(p):
+                    yield "step %d reloaded" % i, p, "restart", rh[p], rel[p]
+        hl = st.get("hl") or {}
+        for p in PARTIES:
+            if isinstance(hl.get(p), dict) and isinstance(st.get(p), dict) and "ltail" in st[p]:
+                yield "step %d" % i, p, "live", hl[p], st[p]
+
+
+def heights_sane(row):
+    """Model-free sanity of the add/remove commit heights of every log entry
+    (rows [type, LogIndex, HtlcIndex, ParentIndex, Amount, addL, addR, rmL, rmR]):
+    * no height above the tip of its chain (Local: ltip/ltail, Remote: rtip/rtail);
+    * per chain add height <= remove height: a resolution's remove height on a chain is
+      not below its parent add's add height there, and never set while the parent's is 0
+      (FeeUpdate: add == remove on each chain);
+    * a height, once set on a live object, never changes while the entry stays in the log
+      (monotone: 0 -> h exactly once; restarts rebuild the logs and are judged per dump);
+    * an entry whose two remove heights are set and <= the respective chain tails is
+      compacted by the owner's next received revocation (it never survives one)."""
+    fails = []
+    last = {}          # (party, log, LogIndex, is_add) -> heights on the live object
+    for where, p, kind, hl, d in _hl_dumps(row):
+        live = kind == "live"
+        if kind == "restart":
+            # a restart replaces the live objects: forget what they carried
+            for k in [k for k in last if k[0] == p]:
+                del last[k]
+        tipL = (d.get("ltip") or d["ltail"])["h"]
+        tipR = (d.get("rtip") or d["rtail"])["h"]
+        tailL, tailR = d["ltail"]["h"], d["rtail"]["h"]
+        for lname, other in (("own", "peer"), ("peer", "own")):
+            adds = {e[2]: e for e in hl[other] if e[0] == 0}
+            for e in hl[lname]:
+                t, li, aL, aR, rL, rR = e[0], e[1], e[5], e[6], e[7], e[8]
+                tag = "%s: %s.%s_log[%d]" % (where, p, lname, li)
+                if max(aL, rL) > tipL or max(aR, rR) > tipR:
+                    fails.append("%s height above its chain tip (%s, tips %d/%d)" % (tag, e[5:], tipL, tipR))
+                if t == 4 and (aL != rL or aR != rR):
+                    fails.append("%s fee update with add != remove heights %s" % (tag, e[5:]))
+                if t in (1, 2, 3):
+                    par = adds.get(e[3])
+                    if par is None:
+                        fails.append("%s resolves HTLC %d which is not in the %s log" % (tag, e[3], other))
+                    else:
+                        for nm, rm, ad in (("local", rL, par[5]), ("remote", rR, par[6])):
+                            if rm and (ad == 0 or ad > rm):
+                                fails.append("%s removed at %s height %d but its add has %s add height %d"
+                                             % (tag, nm, rm, nm, ad))
+                if live:
+                    key = (p, lname, li, t == 0)
+                    old = last.get(key)
+                    if old:
+                        for nm, o, n in zip(("addL", "addR", "rmL", "rmR"), old, (aL, aR, rL, rR)):
+                            if o and o != n:
+                                fails.append("%s %s changed %d -> %d" % (tag, nm, o, n))
+                    last[key] = (aL, aR, rL, rR)
+        if len(fails) > 6:
+            return fails
+    # compaction: after a successfully delivered revocation to p no non-add entry of p's
+    # logs may have both remove heights set and <= the tails
+    for i, st in enumerate(row["steps"]):
+        ex = st.get("extra") or {}
+        if st["op"][0] == "deliver" and st["res"] == "ok" and ex.get("kind") == "rev":
+            p = st["op"][1]
+            hl, d = (st.get("hl") or {}).get(p), st.get(p)
+            if not isinstance(hl, dict) or not isinstance(d, dict) or "ltail" not in d:
+                continue
+            for lname in ("own", "peer"):
+                for e in hl[lname]:
+                    if e[0] != 0 and e[7] and e[8] and e[7] <= d["ltail"]["h"] and e[8] <= d["rtail"]["h"]:
+                        fails.append("step %d: %s.%s_log[%d] survived the compaction of a received "
+                                     "revocation (remove heights %d/%d, tails %d/%d)"
+                                     % (i, p, lname, e[1], e[7], e[8], d["ltail"]["h"], d["rtail"]["h"]))
+    return fails[:8]
+
+
 PREDICATES = [
+    ("heights_sane", heights_sane),
     ("conservation", conservation_case),
     ("mirror", mirror_case),
     ("agreement", agreement),
@@ -1012,6 +1250,7 @@ PREDICATES = [
     ("rejected_no_change", rejected_no_change),
     ("reload_consistent", reload_consistent),
     ("disk_tables", disk_tables),
+    ("call_atomicity", call_atomicity),
     ("crashin_atomic", crashin_atomic),
     ("side_harmless", side_harmless),
     ("logs_ordered", logs_ordered),
